@@ -22,3 +22,4 @@ run b08346d C08 replays/regress/C08-D7-tail-adjacency.json
 run 661611b C17 replays/regress/C17-D8-int-scratch.json
 run 661611b C09 replays/regress/C09-D8-int-list.json
 run 8d9d7b6 C13 replays/regress/C13-D9-painter-arange.json
+run 023290d C04 replays/regress/C04-D10-refined-optimum-lost.json
